@@ -6,6 +6,8 @@ from checks import pycommon
 from checks.c03 import cut_textfn
 
 LAYOUT_ERR_SEEDS = [
+    'for x in """a\nb"""', 'y = 1\nwhile """first\nsecond\nthird"""', 'if cond:\n    pass\nelif """p\nq"""', "if x:\n\t\ty = 1\n\tz = 2\n",
+    "def f():\n\tif a:\n\t\t\treturn 1\n\t\treturn 2\n", "if x:\n \ty = 1\n  z\n", "x = [1,\n\'\'\'a\nb\'\'\' 2]", "(a,\n # c\n b) += 1\n", "(a,\n\n b) += 1\n", 'x = (b"a"\n     # note\n     "b")\n',
     "x = (1,\n\n  2 3)\n", "if a:\n    pass\n\n  b\n", "def f(:\n  pass\n", "x = [\n  # c\n  1 2\n]\n", "'''a\nb''' = 1\n", "x = 1 +\n", "f(a for a in b, c)\n",
     "\n\n\nx y\n", "x y", "# c\nx = = 1\n", "class A:\npass\n", "if a:\n  b\n c\n", "match x:\n ", "try:\n  a\n", "f(**a, *b)\n", "x = 'a' b'b'\n",
     "(a, b) += 1\n", "a = 1 = yield\n", "def f(a=1, b): pass\n", "lambda a=1, b: 0\n", "f!(a]\n", "f!(a, [b)\n", "$(ls ]\n", "with! a:\n", "x = $\n",
@@ -43,6 +45,9 @@ def main():
         pycommon.b_holes(chk, o, py + xs, 0, python_only=False, wall=2400, vac=("SyntaxError",), symbolic_gaps=False)
         pycommon.a_holes(chk, o, LAYOUT_ERR_SEEDS + bad + xs + py, 0, wall=2400, vac=("SyntaxError",))
         cut_src = [s for s in py + xs if len(s) < 200]
+    pycommon.indent_skeleton(chk, o, 4 if chk.quick else 5, pycommon.CORE_OPTS, wall=120 if chk.quick else 1200)
+    pycommon.indent_skeleton(chk, o, 2 if chk.quick else 3, pycommon.RICH_OPTS, wall=120 if chk.quick else 1500, label="rich")
+    cut_src = [s for s in LAYOUT_ERR_SEEDS if len(s) < 120] + cut_src
     tf, ncuts = cut_textfn(cut_src)
     chk.run("A-prefixes", harness.A_harness(tf, path_oracles=o), f"every proper prefix of {len(cut_src)} seeds ({ncuts} cuts)",
             wall=100 if chk.quick else 900, vacuity=("SyntaxError",))
